@@ -170,9 +170,9 @@ def ghostChildPass (dta : DataTypeAttrs) (es : Errors) (x : TraitAttrCore × Kin
   else es
 
 /-- the per-field check shared by `validate_fields` (tuple struct + `as {}`) and `validate_variant_fields` -/
-def memberNameCheck (field : Field) (ty : TypePath) (k : Kind) (noAttrMsg : String) (errors : Errors) : Errors :=
+def memberNameCheck (field : Field) (ty : TypePath) (k : Kind) (fallible : Bool) (noAttrMsg : String) (errors : Errors) : Errors :=
   if (field.attrs.ghost ty k).isSome || field.attrs.hasParentAttr ty then errors else
-  match field.attrs.applicableFieldAttr k false ty with
+  match field.attrs.applicableFieldAttr k fallible ty with
   | some fa =>
     if k.isFrom then
       if fa.attr.member.isNone && fa.attr.action.isNone then
@@ -206,6 +206,13 @@ def childPass (structAttrs : DataTypeAttrs) (typePaths intoTypePaths : List Type
     if intoTypePaths.contains tp then checkChildErrors ca structAttrs tp es else es
   | none => intoTypePaths.foldl (fun es tp => checkChildErrors ca structAttrs tp es) es
 
+def kindOrderInto : List Kind := [.ownedInto, .refInto, .ownedIntoExisting, .refIntoExisting, .fromOwned, .fromRef]
+
+/-- `trait_attrs_by_kind`: the trait instructions in the order of the twelve (kind, fallibility) passes -/
+def traitAttrsByKind (dta : DataTypeAttrs) : List (TraitAttr × Kind) :=
+  (kindOrderInto.flatMap fun k => (dta.iterForKind k false).map fun x => (x, k)) ++
+  (kindOrderInto.flatMap fun k => (dta.iterForKind k true).map fun x => (x, k))
+
 /-- is the nested struct a `#[child]` member is written into given `as {}` in `#[child_parents]`? (fix 43d0b08) -/
 def nestedStructShaped (input : Struct) (ty : TypePath) (field : Field) : Bool :=
   match field.attrs.child ty with
@@ -216,11 +223,11 @@ def nestedStructShaped (input : Struct) (ty : TypePath) (field : Field) : Bool :
   | none => false
 
 /-- third loop of `validate_fields`, one (trait instruction, kind): tuple struct mapped `as {}` -/
-def namePass (input : Struct) (dta : TraitAttrCore) (k : Kind) (es : Errors) : Errors :=
+def namePass (input : Struct) (dta : TraitAttrCore) (k : Kind) (fallible : Bool) (es : Errors) : Errors :=
   if dta.quickReturn.isNone then
     input.fields.foldl (fun es field =>
       if dta.typeHint != .struct && !nestedStructShaped input dta.ty field then es else
-      memberNameCheck field dta.ty k
+      memberNameCheck field dta.ty k fallible
         ("Member " ++ field.member.str ++ " should have member trait instruction with field name" ++
           (if k.isFrom then " or an action" else "") ++ ", that corresponds to #[" ++ fallibleKindName k false ++
           "(" ++ dta.ty.pathStr ++ "...)] trait instruction") es) es
@@ -234,16 +241,15 @@ def validateFields (input : Struct) (byKind : List (TraitAttrCore × Kind)) (typ
   let es := (input.fields.flatMap (·.attrs.childAttrs)).foldl (fun es ca => childPass input.attrs typePaths intoTypePaths ca es) es
   let es := byKind.foldl (ghostChildPass input.attrs) es
   if !input.namedFields then
-    byKind.foldl (fun es x => namePass input x.1 x.2 es) es
+    (traitAttrsByKind input.attrs).foldl (fun es x => namePass input x.1.core x.2 x.1.fallible es) es
   else es
 
-def kindOrderInto : List Kind := [.ownedInto, .refInto, .ownedIntoExisting, .refIntoExisting, .fromOwned, .fromRef]
 
 /-- one (trait instruction, kind) of `validate_variant_fields` -/
 def variantNamePass (input : Variant) (a : TraitAttr) (k : Kind) (es : Errors) : Errors :=
   if a.core.quickReturn.isNone && ((input.attrs.typeHint a.core.ty).map (·.typeHint)).getD .unspecified == .struct then
     input.fields.foldl (fun es field =>
-      memberNameCheck field a.core.ty k
+      memberNameCheck field a.core.ty k a.fallible
         ("Member " ++ field.member.str ++ " of a variant " ++ input.ident ++ " should have member trait instruction with field name" ++
           (if k.isFrom then " or an action" else "") ++ ", that corresponds to #[" ++ fallibleKindName k a.fallible ++
           "(" ++ a.core.ty.pathStr ++ "...)] trait instruction") es) es
@@ -252,10 +258,7 @@ def variantNamePass (input : Variant) (a : TraitAttr) (k : Kind) (es : Errors) :
 /-- `validate_variant_fields` -/
 def validateVariantFields (input : Variant) (dta : DataTypeAttrs) (errors : Errors) : Errors :=
   if !input.namedFields then
-    let byKind : List (TraitAttr × Kind) :=
-      (kindOrderInto.flatMap fun k => (dta.iterForKind k false).map fun x => (x, k)) ++
-      (kindOrderInto.flatMap fun k => (dta.iterForKind k true).map fun x => (x, k))
-    byKind.foldl (fun es x => variantNamePass input x.1 x.2 es) errors
+    (traitAttrsByKind dta).foldl (fun es x => variantNamePass input x.1 x.2 es) errors
   else errors
 
 /-- a `#[parent(..)]` list that a From conversion has to construct needs the member's type to be a path -/
